@@ -49,7 +49,7 @@ Canon(c) == IF c \in KnownComp THEN c ELSE "None"
 (***************************************************************************)
 IntClasses   == {"null", "zero", "positive", "negative", "min", "max", "umax", "p53m1", "p53p1"}
 FloatClasses == {"null", "zero", "negative", "fraction", "integral", "min", "max", "p53m1", "p53p1", "wide"}
-StrClasses   == {"null", "empty", "plain", "base64", "number", "json", "multibyte", "escape"}
+StrClasses   == {"null", "empty", "plain", "base64", "number", "json", "multibyte", "escape", "timelike"}
 TimeClasses  == {"null", "epoch", "nosub", "sub", "min", "max", "zone"}
 BytesClasses == {"null", "empty", "bin", "ascii", "base64", "multibyte"}
 
